@@ -107,6 +107,21 @@ def value(n, with_id=False):
     return vals[id(n)]
 
 
+def difference_field(a, b):
+    """Name of the first differing field of two value() results ('children' for a length mismatch), or None."""
+    names = ("id", "name", "content", "tail", "prefix", "attributes", "extras", "nsmap")
+    stack = [(a, b)]
+    while stack:
+        x, y = stack.pop()
+        for i, f in enumerate(names):
+            if x[i] != y[i]:
+                return f
+        if len(x[8]) != len(y[8]):
+            return "children"
+        stack.extend(zip(x[8], y[8]))
+    return None
+
+
 def first_value_difference(a, b, path="/"):
     """Where two value() results differ (for messages)."""
     names = ("id", "name", "content", "tail", "prefix", "attributes", "extras", "nsmap")
